@@ -36,7 +36,7 @@ func c16Setup(t *testing.T, u c16Universe) *sim.Chain {
 		cu := newCDP(t, cdpOpts{variant: u.Variant})
 		cu.c.App.NewliqKeeper.SetParams(cu.c.Ctx(), liqV2types.Params{LiquidationBatchSize: uint64([]int{200, 3}[u.Variant%2])})
 		return cu.c
-	case "liq":
+	case "liq", "liq-crowd":
 		return liqNewWorld(t, ev.NewScratch(), rng("C16-liq-setup", u.Variant), u.Variant, nil).c
 	case "lend":
 		return c08Setup(t, ev.NewScratch(), rng("C16-lend-setup", u.Variant), 0, u.Variant%3, true).c
@@ -72,6 +72,25 @@ func init() {
 				w.randomOp()
 			}
 			w.nextBlock(w.blockGap())
+		}
+		w.nextBlock(6 * time.Second)
+		return w.c.Tape
+	}
+	// the matcher under crowds: every block rests several same-tick orders of very different sizes and fills the
+	// tick partly (pro-rata split, drop-and-redistribute rounds, truncation remainders handed out "by priority")
+	c16Recorders["liq-crowd"] = func(t *testing.T, rec *ev.Rec, u c16Universe, steps int) *sim.Tape {
+		w := liqNewWorld(t, ev.NewScratch(), rng("C16-liq-setup", u.Variant), u.Variant, nil)
+		defer w.c.Close()
+		w.rnd = rng("C16-liq-crowd", u.Variant)
+		w.c.Tape = &sim.Tape{}
+		for b := 0; b < steps/8; b++ {
+			for i := 1 + w.rnd.Intn(3); i > 0; i-- {
+				w.opCrowd()
+			}
+			if w.rnd.Intn(3) == 0 {
+				w.randomOp()
+			}
+			w.nextBlock(6 * time.Second)
 		}
 		w.nextBlock(6 * time.Second)
 		return w.c.Tape
